@@ -7,12 +7,14 @@ from ..tree import int_of, is_node, mir_name, path_of, show, show_stmt, sites, u
 from . import codec, parserx
 
 EXPLANATION = (
-    "Decision tables extracted from the syntax tree of parse_header, parse_inst and parse_operands (every result site with the "
-    "set of conditions that hold on its path, conditions mapped to semantic atoms so that renaming and re-structuring do not "
-    "matter) are compared with the tables of the property statement; the quantifier table together with the well-formedness of "
-    "every grammar row (C09) is the grammar's language; error payloads (offset, instruction number) by shape; inst_index has one "
-    "writer (MIR census); delivery order and exactly-once delivery are C14's control-flow rules, evaluated here too. Numeric "
-    "correctness of offsets beyond these shapes and the nested operand grammar of OpSpecConstantOp are not decided.")
+    "parse_header, parse_inst, parse_operands and parse_spec_constant_op are evaluated (by the rule engine's evaluator of the expanded "
+    "syntax tree, helpers inlined, nothing of rspirv executed) against scripted decoders: the four outcomes of reading the header; "
+    "no word / word count 0 / unknown opcode / operand error / words left / well-formed (word counts 1 and 0x8421, at byte 0 and 1000); "
+    "all operand lists of length <= 3 over the three quantifiers with 0..4 words, and the five special rows. Results, error payloads "
+    "(offset, instruction number) and the decoder-limit bracket are compared with the tables of the property statement; the quantifier "
+    "table together with the well-formedness of every grammar row (C09) is the grammar's language; inst_index has one writer (MIR "
+    "census). A small scope of witness words, not a proof over all word values; the nested operand grammar of OpSpecConstantOp beyond "
+    "the evaluated cases is not decided.")
 EXHAUSTIVE = True
 
 PAR = "rspirv::binary::parser"
